@@ -376,3 +376,237 @@ def canon(v):
 
 def opt(s):
     return 'None' if s is None else '(Some %s)' % s
+
+
+# ---------------------------------------------------------------------- the CQL literal cqlengine sends
+def make_encoder(col):
+    """The Encoder of a cqlengine session: cassandra.encoder.Encoder with tuple mapped to cql_encode_tuple (as
+    cassandra/cqlengine/connection.py does in setup_session) and every UserType class of the column registered through
+    the REAL Session.user_type_registered (run on a stand-in session that only carries the metadata it reads)."""
+    import types
+    from cassandra.encoder import Encoder
+    from cassandra.cluster import Session
+    from cassandra.cqlengine import columns as C
+    enc = Encoder()
+    enc.mapping[tuple] = enc.cql_encode_tuple
+    ks = types.SimpleNamespace(user_types={})
+    fake = types.SimpleNamespace(encoder=enc, cluster=types.SimpleNamespace(metadata=types.SimpleNamespace(keyspaces={'ks': ks})))
+
+    def reg(c):
+        if isinstance(c, C.UserDefinedType):
+            ut = c.user_type
+            ks.user_types[ut.type_name()] = types.SimpleNamespace(field_names=[f.db_field_name for f in ut._fields.values()])
+            Session.user_type_registered(fake, 'ks', ut.type_name(), ut)
+            for f in ut._fields.values():
+                reg(f)
+        for sub in getattr(c, 'types', None) or []:
+            reg(sub)
+    reg(col)
+    return enc
+
+
+class LitError(Exception):
+    pass
+
+
+DURATION_LIT = None
+
+
+class LitParser(object):
+    """Typed reader of a CQL literal (how the server reads the text for a column of the given type; CQL reference).
+    value(t) -> (Gallina `lit` token literal, CQL value tree as produced by decode())."""
+    def __init__(self, s):
+        self.s, self.i = s, 0
+
+    def ws(self):
+        while self.i < len(self.s) and self.s[self.i] == ' ':
+            self.i += 1
+
+    def eat(self, ch):
+        self.ws()
+        if self.s[self.i:self.i + len(ch)] != ch:
+            raise LitError('expected %r at %d in %r' % (ch, self.i, self.s[:200]))
+        self.i += len(ch)
+
+    def at(self, ch):
+        self.ws()
+        return self.s[self.i:self.i + len(ch)] == ch
+
+    def tok(self):
+        self.ws()
+        j = self.i
+        while j < len(self.s) and self.s[j] not in ' ,]})':
+            j += 1
+        t = self.s[self.i:j]
+        if t.endswith(':'):
+            t = t[:-1]
+            j -= 1
+        if not t:
+            raise LitError('empty token at %d in %r' % (self.i, self.s[:200]))
+        self.i = j
+        return t
+
+    def quoted(self):
+        self.eat("'")
+        out = []
+        while True:
+            if self.i >= len(self.s):
+                raise LitError('unterminated string')
+            c = self.s[self.i]
+            if c == "'":
+                if self.s[self.i + 1:self.i + 2] == "'":
+                    out.append("'")
+                    self.i += 2
+                    continue
+                self.i += 1
+                return ''.join(out)
+            out.append(c)
+            self.i += 1
+
+    def items(self, close, one):
+        out = []
+        if self.at(close):
+            self.eat(close)
+            return out
+        while True:
+            out.append(one())
+            if self.at(','):
+                self.eat(',')
+                continue
+            self.eat(close)
+            return out
+
+    def field(self, t):
+        if self.at('NULL'):
+            self.eat('NULL')
+            return 'LNull', ('VNull',)
+        return self.value(t)
+
+    def value(self, t):
+        import re
+        from cassandra import cqltypes as T
+        name = t.typename
+        if issubclass(t, T.UserType):
+            self.eat('{')
+            gs, vs = [], []
+            for k, (fname, st) in enumerate(zip(t.fieldnames, t.subtypes)):
+                if k:
+                    self.eat(',')
+                self.eat(fname)
+                self.eat(':')
+                g, v = self.field(st)
+                gs.append(g)
+                vs.append(v)
+            self.eat('}')
+            return '(LUdt [%s])' % '; '.join(gs), ('VUdt', tuple(vs))
+        if issubclass(t, T.TupleType):
+            self.eat('(')
+            sub = iter(t.subtypes)
+
+            def one():
+                try:
+                    st = next(sub)
+                except StopIteration:
+                    raise LitError('too many tuple fields')
+                return self.field(st)
+            its = self.items(')', one)
+            return '(LTuple [%s])' % '; '.join(g for g, _ in its), ('VTuple', tuple(v for _, v in its))
+        if name in ('list', 'set'):
+            self.eat('[' if name == 'list' else '{')
+            its = self.items(']' if name == 'list' else '}', lambda: self.value(t.subtypes[0]))
+            return ('(%s [%s])' % ('LList' if name == 'list' else 'LSet', '; '.join(g for g, _ in its)),
+                    ('VList' if name == 'list' else 'VSet', tuple(v for _, v in its)))
+        if name == 'map':
+            self.eat('{')
+
+            def pair():
+                k = self.value(t.subtypes[0])
+                self.eat(':')
+                v = self.value(t.subtypes[1])
+                return k, v
+            its = self.items('}', pair)
+            return ('(LMap [%s])' % '; '.join('(%s, %s)' % (k[0], v[0]) for k, v in its), ('VMap', tuple((k[1], v[1]) for k, v in its)))
+        if name in ('int', 'tinyint', 'smallint', 'bigint', 'counter', 'varint', 'timestamp', 'date'):
+            tk = self.tok()
+            if not re.match(r'^-?\d+$', tk):
+                raise LitError('not an integer literal: %r' % tk)
+            zv = int(tk)
+            bits = {'int': 32, 'tinyint': 8, 'smallint': 16, 'bigint': 64, 'counter': 64, 'timestamp': 64}.get(name)
+            if bits and not (-2 ** (bits - 1) <= zv < 2 ** (bits - 1)):
+                raise LitError('%s literal out of range: %d' % (name, zv))
+            if name == 'date':
+                if not 0 <= zv < 2 ** 32:
+                    raise LitError('date literal out of range')
+                return '(LInt %s)' % z(zv), ('VDate', zv - 2 ** 31)
+            return '(LInt %s)' % z(zv), ('VTimestamp' if name == 'timestamp' else 'VInt', zv)
+        if name in ('float', 'double'):
+            tk = self.tok()
+            x = {'NaN': float('nan'), 'Infinity': float('inf'), '-Infinity': float('-inf')}.get(tk)
+            if x is None:
+                if not re.match(r'^-?(\d+\.?\d*|\.\d+)([eE][-+]?\d+)?$', tk):
+                    raise LitError('not a float literal: %r' % tk)
+                x = float(tk)
+            sp = float_spec(x)
+            g = '(LFloatSpec %d)' % sp if sp is not None else '(LFloat %s %s)' % tuple(z(a) for a in float_dy(x))
+            if name == 'float':
+                x = struct.unpack('>f', struct.pack('>f', x))[0]
+                sp = float_spec(x)
+            return g, (('VFloatSpec', sp) if sp is not None else ('VFloat',) + float_dy(x))
+        if name in ('text', 'varchar', 'ascii'):
+            sv = self.quoted()
+            if name == 'ascii' and any(ord(c) > 127 for c in sv):
+                raise LitError('non-ascii')
+            return '(LStr %s)' % zl([ord(c) for c in sv]), ('VText', tuple(ord(c) for c in sv))
+        if name == 'inet':
+            sv = self.quoted()
+            b = socket.inet_pton(socket.AF_INET6 if ':' in sv else socket.AF_INET, sv)
+            return '(LInet %s)' % zl(list(b)), ('VInet', tuple(b))
+        if name == 'time':
+            sv = self.quoted()
+            m = re.match(r'^(\d\d):(\d\d):(\d\d)\.(\d{9})$', sv)
+            if not m:
+                raise LitError('not a time literal: %r' % sv)
+            ns = ((int(m.group(1)) * 60 + int(m.group(2))) * 60 + int(m.group(3))) * 10 ** 9 + int(m.group(4))
+            return '(LTime %s)' % z(ns), ('VTime', ns)
+        if name == 'blob':
+            tk = self.tok()
+            if not re.match(r'^0[xX]([0-9a-fA-F]{2})*$', tk):
+                raise LitError('not a blob literal: %r' % tk)
+            b = bytes.fromhex(tk[2:])
+            return '(LHex %s)' % zl(list(b)), ('VBytes', tuple(b))
+        if name == 'boolean':
+            tk = self.tok().lower()
+            if tk not in ('true', 'false'):
+                raise LitError('not a boolean literal')
+            return '(LBool %s)' % tk, ('VBool', tk == 'true')
+        if name in ('uuid', 'timeuuid'):
+            tk = self.tok()
+            if not re.match(r'^[0-9a-fA-F]{8}-[0-9a-fA-F]{4}-[0-9a-fA-F]{4}-[0-9a-fA-F]{4}-[0-9a-fA-F]{12}$', tk):
+                raise LitError('not a uuid literal: %r' % tk)
+            u = uuid.UUID(tk).int
+            return '(LUuid %s)' % z(u), ('VUuid', u)
+        if name == 'decimal':
+            tk = self.tok()
+            if not re.match(r'^-?(\d+\.?\d*|\.\d+)([eE][-+]?\d+)?$', tk):
+                raise LitError('not a decimal literal: %r' % tk)
+            sign, digits, exp = decimal.Decimal(tk).as_tuple()
+            c = int(''.join(map(str, digits)) or '0')
+            return ('(LDecimal %s %s %s)' % ('true' if sign else 'false', z(c), z(exp)), ('VDecimal', -c if sign else c, -exp))
+        if name == 'duration':
+            tk = self.tok()
+            m = re.match(r'^(-)?(\d+)mo(\d+)d(\d+)ns$', tk)
+            if not m:
+                raise LitError('not a duration literal: %r' % tk)
+            sg = -1 if m.group(1) else 1
+            a, b, c = int(m.group(2)), int(m.group(3)), int(m.group(4))
+            return ('(LDuration %s %s %s %s)' % ('true' if m.group(1) else 'false', z(a), z(b), z(c)), ('VDuration', sg * a, sg * b, sg * c))
+        raise LitError('no literal reader for %s' % name)
+
+
+def read_literal(text, t):
+    p = LitParser(text)
+    g, v = p.value(t)
+    p.ws()
+    if p.i != len(text):
+        raise LitError('trailing text %r' % text[p.i:p.i + 40])
+    return g, v
